@@ -154,18 +154,18 @@ def canon_sympy(res, idmap):
     return {k: v for k, v in out.items() if v}
 
 
-_TRIPLE = re.compile(r"\((\d+)%N, (\d+)%N, (\d+)%N\)")
+_TRIPLE = re.compile(r"\((\d+)%N,(\d+)%N,(\d+)%N\)")
 
 
 def parse_wterms(val):
     """Coq value of type list (bool * list (N*N*N)) -> [(neg, [(p,q,code)])]"""
     if val is None:
         return None
-    val = val.strip()
+    val = re.sub(r"\s+", "", val)      # the pretty printer breaks lines anywhere
     if val in ("[]", "nil"):
         return []
     out = []
-    for m in re.finditer(r"\((true|false), (\[[^\]]*\]|nil)\)", val):
+    for m in re.finditer(r"\((true|false),(\[[^\]]*\]|nil)\)", val):
         cs = [(int(a), int(b), int(c))
               for a, b, c in _TRIPLE.findall(m.group(2))]
         out.append((m.group(1) == "true", cs))
